@@ -19,6 +19,10 @@ def run(prop, tier, seed_, replay=None):
         from . import c06
 
         return c06.run(tier, seed_)
+    if prop == "C19":
+        from . import c19
+
+        return c19.run(tier, seed_)
     if prop == "C08":
         from . import c08
 
